@@ -1025,9 +1025,13 @@ def check_C06(tier, seed):
         rc, out, err = run_driver(ctx.model, e.text() + '\n'.join(ul) + '\n', 'c06n')
         for o in out:
             t = o.split()
-            if len(t) == 3:
+            if len(t) >= 3:
                 nf['accepted_by_model'] += 1
                 nf['normal_form_after_normalisation'] += int(t[1]); nf['already_normal_form'] += int(t[2])
+                if len(t) >= 6:
+                    nf['well_formed'] = nf.get('well_formed', 0) + int(t[3])
+                    nf['well_typed'] = nf.get('well_typed', 0) + int(t[4])
+                    nf['check_accepts'] = nf.get('check_accepts', 0) + int(t[5])
         return lines
     run_corr_streams(run, ctx, rnd, envs, per_env, st, [rt_and_nf], 'rt', oracle)
     run.cov['theorem_hypothesis'] = dict(nf, note='accepted inputs whose parse result, normalised (Impl/Norm.v), satisfies canon_msg: for these the stability '
